@@ -87,11 +87,21 @@ def stored_fields(ctx, only=None):
             continue
         a = adts[0]
         got = {f: canon(x) for f, x in a[2]}
+        raw = dict(a[2])
         for f, want in fields.items():
             if only is not None and f not in only[suffix]:
                 continue
-            rep.check(got.get(f) == want, 'R-C17-3', 'R-C17-3/%s/%s' % (suffix, f),
+            # the argument as it came in: an in-place operation on it before it is stored (`r.truncate(6)`, `sort`, `dedup`, `retain` ..)
+            # adjusts the value while the stored term still names the parameter
+            changed = []
+            t0 = raw.get(f)
+            while t0 is not None and t0.tag == 'mut':
+                changed += [ev[2].split('::')[-1] if ev[1] == 'call' else 'store' for ev in t0[2] if hasattr(ev, 'tag') and ev.tag == 'ev']
+                t0 = t0[1]
+            changed = [c for c in changed if c not in ('shrink_to_fit', 'reserve', 'reserve_exact', 'as_mut', 'as_mut_slice', 'iter_mut')]
+            rep.check(got.get(f) == want and not changed, 'R-C17-3', 'R-C17-3/%s/%s' % (suffix, f),
                       'field %s of the constructed value is %s' % (f, want),
+                      ('field %s of the constructed value is the argument after %s: a silently adjusted value' % (f, ', '.join(changed))) if got.get(f) == want else
                       'field %s of the constructed value is %s, expected the unadjusted %s' % (f, got.get(f), want), ctx.where(body))
 
 
